@@ -37,11 +37,13 @@ CHECKS = {
     "C08": dict(
         engine="tlc + h-crdt",
         technique="TLC exhaustive model checking (purge enabled in every state) + edge-complete replay on the real OrSWotSet",
-        text=("Local clauses: on every reachable set of the bounded universes a purge leaves get() unchanged, removes only tombstones, "
+        text=("Global clause: Cluster.tla with Purge enabled at any moment and time advancing under the timeliness guard converges to last-writer-wins over "
+              "all issued operations (the never-purging outcome), exhaustively for a small config and by simulation with real-node replay beyond. "
+              "Local clauses: on every reachable set of the bounded universes a purge leaves get() unchanged, removes only tombstones, "
               "and afterwards every operation of the deleting node not newer than the purged delete is refused by will_apply and both "
               "mutators on every source - checked by TLC on the faithful model and re-checked on the real code on every edge."),
         design_ref="DESIGN.md section 7 C08",
-        note=_OPS_NOTE + " The global (cluster-level) clause is decided by the Cluster model once it is bound; until then only the local clauses are claimed."),
+        note=_OPS_NOTE + " The global clause uses Cluster.tla with global time, bounded skew and the timeliness guard (exhaustive small config + simulation with real-node replay)."),
     "C09": dict(
         engine="tlc + h-crdt",
         technique="TLC exhaustive model checking of MC_HLC over boundary grids + edge-complete replay on the real HLCTimestamp + TLC trace validation of random runs",
@@ -167,4 +169,24 @@ CHECKS = {
               "switch point; multi-thread: sampled); acknowledged ids, the final set and the installation count (hook) are validated by Trace_KeyspaceGroup.tla."),
         design_ref="DESIGN.md section 7 C18",
         note="The current-thread rounds reproduce the double-creation deterministically on the pinned code; multi-thread rounds are a sample."),
+    "C01": dict(
+        engine="tlc + h-ec",
+        technique="TLC exhaustive model checking of small Cluster.tla configs + TLC simulation of larger ones, every converged behaviour replayed on real nodes (real KeyspaceGroup/Clock/services over loopback RPC)",
+        text=("Cluster.tla composes the actor/set semantics (Actor.tla, Orswot.tla) into N nodes with direct and batch replication over a lossy, duplicating, "
+              "reordering network and pairwise anti-entropy whose steps (GetState, Diff, removal half, Fetch, modification half) are independently enabled; "
+              "the invariant says that once nothing is pending and every ordered pair completed an exchange started after the last operation, every node "
+              "reads exactly the last-writer-wins documents. TLC checks it exhaustively for 2-3 operations and by simulation beyond; each converged "
+              "behaviour is replayed step by step on real components and every node's reads (ids, timestamps, bytes) and set/storage agreement are compared "
+              "with the specification's expectation."),
+        design_ref="DESIGN.md section 7 C01",
+        note="Exhaustive only for small bounds; simulation samples the rest. The keyspace-timestamp tracker of the poller and the distributor's aggregation loop are not modelled."),
+    "C06": dict(
+        engine="tlc + h-ec",
+        technique="TLC exhaustive model checking of Consistency.tla + TLC trace validation of calls made through the public API of real loopback clusters with failing replicas",
+        text=("Consistency.tla models one client write: any selection the Selector postcondition allows, any subset of replicas refusing or losing their reply, "
+              "ack counting and the returned outcome; TLC checks 'Ok => readable on >= Required other nodes' and 'failure is honest'. Real clusters (chitchat "
+              "membership, selector, RPC, distributor, poller) are driven through the public handle for every level x kind x refusing subset; each call's "
+              "outcome and every node's storage right after it are validated by Trace_Consistency.tla against the same Required()."),
+        design_ref="DESIGN.md section 7 C06",
+        note="Layouts up to 5 nodes / 2-3 data centres. Lost replies only in the model. Timing-dependent facts are polled, not asserted at an instant."),
 }
